@@ -3,6 +3,8 @@ From ChiaV.Base Require Import Bytes.
 From ChiaV.Clvm Require Import Sexp Ints.
 From ChiaV.Cond Require Import Model Strict.
 Open Scope N_scope.
+From ChiaV.Cond Require Import Syntax Collect Totals Final Declarative Perm.
+From Coq Require Import Permutation.
 From ChiaV.Props Require Import C06.
 Check C06_strict_implies_lenient :
   forall vk H K V fl fl',
@@ -22,3 +24,11 @@ Check C06_parse_args_strict_implies_lenient :
    (f_limit_spends fl' = true -> f_limit_spends fl = true)) ->
   forall c op cva, parse_args fl c op = Ok cva -> parse_args fl' c op = Ok cva.
 Print Assumptions C06_parse_args_strict_implies_lenient.
+Check C06_permutation_invariance :
+  forall vk H K fl V t t' ps ps' max_cost clvm_cost,
+  tree_syntax fl t = Ok ps -> tree_syntax fl t' = Ok ps' -> bundle_perm ps ps' ->
+  ((exists r, parse_spends vk H K fl V t max_cost clvm_cost = Ok r) <->
+   (exists r, parse_spends vk H K fl V t' max_cost clvm_cost = Ok r)) /\
+  total_cost fl ps = total_cost fl ps' /\ tot_fee ps = tot_fee ps' /\ tot_removal ps = tot_removal ps' /\
+  tot_addition ps = tot_addition ps' /\ Permutation (all_known ps) (all_known ps').
+Print Assumptions C06_permutation_invariance.
